@@ -32,6 +32,7 @@ var (
 	pkgsFlag = flag.String("pkgs", "github.com/relex/slog-agent/...,github.com/relex/gotils/channels,github.com/relex/gotils/promexporter/promext", "package patterns")
 	extra    = flag.String("extra", "", "extra overlay entries orig=replacement, comma separated")
 	noAtomic = flag.String("noatomic", "github.com/relex/gotils/promexporter/promext", "packages whose atomics are not scheduling points")
+	timeOnly = flag.String("timeonly", "github.com/relex/gotils/promexporter/promext", "packages where only time.* calls are rewritten (their channels and goroutines belong to uninstrumented callers such as the Prometheus registry)")
 	skipPkgs = flag.String("skip", "github.com/relex/slog-agent/test,github.com/relex/slog-agent/cmd,github.com/relex/slog-agent", "packages left untouched")
 	verbose  = flag.Bool("v", false, "verbose")
 	vfsPkgs  = flag.String("vfs", "", "packages whose unix.* file syscalls go through the vfs seam (comma separated import paths)")
@@ -89,6 +90,10 @@ func main() {
 	for _, s := range strings.Split(*noAtomic, ",") {
 		noat[s] = true
 	}
+	tonly := map[string]bool{}
+	for _, s := range strings.Split(*timeOnly, ",") {
+		tonly[s] = true
+	}
 	overlay := map[string]string{}
 	sort.Slice(pkgs, func(i, j int) bool { return pkgs[i].PkgPath < pkgs[j].PkgPath })
 	for _, p := range pkgs {
@@ -100,7 +105,7 @@ func main() {
 			if strings.HasSuffix(orig, "_test.go") {
 				continue
 			}
-			r := &rewriter{pkg: p, file: f, fset: p.Fset, info: p.TypesInfo, noAtomic: noat[p.PkgPath], vfs: vfsSet[p.PkgPath], fname: shortName(p.PkgPath, orig)}
+			r := &rewriter{pkg: p, file: f, fset: p.Fset, info: p.TypesInfo, noAtomic: noat[p.PkgPath], vfs: vfsSet[p.PkgPath], timeOnly: tonly[p.PkgPath], fname: shortName(p.PkgPath, orig)}
 			if !r.rewriteFile() {
 				continue
 			}
@@ -150,6 +155,7 @@ type rewriter struct {
 	fname      string
 	noAtomic   bool
 	vfs        bool
+	timeOnly   bool
 	usedVfs    bool
 	changed    bool
 	tmpN       int
@@ -426,6 +432,14 @@ func unparen(e ast.Expr) ast.Expr {
 }
 
 func (r *rewriter) post(c *astutil.Cursor) bool {
+	if r.timeOnly {
+		if n, ok := c.Node().(*ast.CallExpr); ok {
+			if pkg, recv, _, _ := r.callee(n); pkg == "time" && (recv == "" || recv == "Timer" || recv == "Ticker") {
+				r.rewriteCall(c, n)
+			}
+		}
+		return true
+	}
 	switch n := c.Node().(type) {
 	case *ast.UnaryExpr:
 		if n.Op == token.ARROW && !r.skipRecv[n] {
